@@ -1308,6 +1308,7 @@ class C15(Oracle):
         from gym_gridverse.representations.state_representations import make_state_representation
         from gym_gridverse.spaces import ObservationSpace, StateSpace
         from harness.corr_repr import random_member_state
+        from gym_gridverse.grid_object import Color
 
         out = []
 
@@ -1342,9 +1343,17 @@ class C15(Oracle):
             else:
                 ssp = StateSpace(Shape(h, w), kinds, colors)
                 if ssp.can_be_represented:
-                    s = random_member_state(rng, h, w, kinds, colors, p_bad=0.0)
-                    if ssp.contains(s):
+                    # near-members too: whatever the space accepts must convert into the space
+                    s = random_member_state(rng, h, w, kinds, colors, p_bad=0.4)
+                    if s.grid.shape.as_tuple == (h, w) and in_grid(s.grid, s.agent.position) and ssp.contains(s):
+                        before = len(out)
                         check_rep(make_state_representation(c['enc'], ssp), s, 'state')
+                        if len(out) > before:
+                            declared = {Color.NONE} | set(colors)
+                            cols = {s.grid[p].color for p in s.grid.area.positions()} | {s.agent.grid_object.color}
+                            if not cols <= declared:
+                                for v in out[before:]:
+                                    v['signature'] = 'StateSpace.contains/ignores-colours'
             return out
         # trajectories of environments
         env = env_of_case(c)
@@ -1702,6 +1711,27 @@ class C01(Oracle):
         env = build_env(None, data)
         s = self._prep_state(env, data, state_from_str(c['state']))
         env.set_seed(c['seed'])
+        # the membership predicate accepts exactly the conforming states (checked on a smaller space)
+        from gym_gridverse.grid_object import Color, NoneGridObject
+        from gym_gridverse.spaces import StateSpace
+
+        r0 = random.Random(c['seed'])
+        sub_kinds = [k for k in env.state_space.object_types if r0.random() < 0.7]
+        sub_cols = [col for col in list(Color)[1:] if r0.random() < 0.6]
+        if sub_kinds:
+            ssp = StateSpace(env.state_space.grid_shape, sub_kinds, sub_cols)
+            cells = [s.grid[p] for p in s.grid.area.positions()]
+            conforms = (
+                s.grid.shape == ssp.grid_shape
+                and all(type(o) in sub_kinds for o in cells)
+                and all(o.color in set(sub_cols) | {Color.NONE} for o in cells)
+                and in_grid(s.grid, s.agent.position)
+                and (type(s.agent.grid_object) in sub_kinds or isinstance(s.agent.grid_object, NoneGridObject))
+                and s.agent.grid_object.color in set(sub_cols) | {Color.NONE}
+            )
+            if ssp.contains(s) != conforms:
+                bad_col = not all(o.color in set(sub_cols) | {Color.NONE} for o in cells + [s.agent.grid_object])
+                out.append(V('StateSpace.contains/ignores-colours' if bad_col and ssp.contains(s) else 'StateSpace.contains/not-iff-conforming', f'{c["state"]} kinds={[k.__name__ for k in sub_kinds]} colors={[x.name for x in sub_cols]}'))
         if not env.state_space.contains(s):
             return out
         tnames = [t['name'] for t in data['transition_functions']]
